@@ -498,6 +498,44 @@ def run_case(case, acc):
         exe2_accesses = vk.log[n0:]
         r_cwd = call(pr.cwd)
         r_name = call(pr.name)
+        # the same record through the other call paths: a fresh object asked in the opposite order inside a oneshot()
+        # block, and as_dict() on a third one. A static record must read the same whichever path is taken.
+        plain = dict(cmdline=r_cmd, environ=r_env, exe=r_exe, cwd=r_cwd, name=r_name)
+        alt = {}
+        try:
+            pr2 = ps.Process(case["pid"])
+            with pr2.oneshot():
+                for m in ("name", "cwd", "exe", "environ", "cmdline"):
+                    alt[m] = call(getattr(pr2, m))
+            r_dict = call(lambda: ps.Process(case["pid"]).as_dict(attrs=list(plain), ad_value="<ad>"))
+        except Exception as e:  # noqa: BLE001
+            viols.append((f"second_object_exception:{type(e).__name__}", repr(e)))
+            r_dict = None
+
+    def same(a, b):
+        if a[0] != b[0]:
+            return False
+        return a[1] == b[1] if a[0] == "ok" else type(a[1]) is type(b[1])
+    for m, r in alt.items():
+        acc.count("call_path_comparisons")
+        if not same(r, plain[m]):
+            viols.append((f"{m}_differs_in_oneshot_block", f"{m}(): plain {plain[m]!r} vs reversed order in oneshot() {r!r}"))
+    if r_dict is not None:
+        if r_dict[0] == "exc":
+            # as_dict() lets through whatever is neither AccessDenied nor ZombieProcess
+            bad = [m for m, r in plain.items() if r[0] == "exc" and type(r[1]) is type(r_dict[1])]
+            if not bad:
+                viols.append((f"as_dict_exception:{type(r_dict[1]).__name__}", f"as_dict raised {r_dict[1]!r}; plain calls: {plain!r}"[:600]))
+        else:
+            for m, r in plain.items():
+                acc.count("call_path_comparisons")
+                got = r_dict[1].get(m)
+                if r[0] == "ok":
+                    ok = got == r[1]
+                else:
+                    ok = got == "<ad>" and isinstance(r[1], (ps.AccessDenied, ps.ZombieProcess))
+                if not ok:
+                    viols.append((f"{m}_differs_via_as_dict", f"{m}: plain {r!r} vs as_dict {got!r}"))
 
     # ---- cmdline
     acc.count("cmdline_compared")
